@@ -280,6 +280,25 @@ def run_case(case, ctx):
                     continue        # the setter did not keep the change (cannot happen on this alphabet)
                 _judge(ctx, 'knot', a, b, False, dict(case, only=dict(component='knot', direction=d, index=i, delta=delta)),
                        dict(f0, component='knot', direction='uvw'[d], index=i, delta=delta, interior=interior))
+                # the same change made in place through the list the getter of a deep copy returns.  Only judged when the
+                # edit really reaches the copy (a getter that hands out copies makes it a no-op, which is fine).
+                if delta == DELTAS[0] or delta == DELTAS[2]:
+                    c = copy.deepcopy(a)
+                    try:
+                        lst = c.knotvector if c.pdimension == 1 else c.knotvector[d]
+                        lst[i] = kv[i]
+                    except Exception:
+                        continue
+                    if _get_kvs(c)[d][i] != kv[i]:
+                        continue
+                    fi = dict(f0, component='knot_inplace', direction='uvw'[d], index=i, delta=delta, interior=interior)
+                    rci = dict(case, only=dict(component='knot', direction=d, index=i, delta=delta))
+                    ctx.check('C19.deepcopy_independent.knots', _get_kvs(a)[d] == kv0, rci, fi, kv0, _get_kvs(a)[d],
+                              'editing a knot of the deep copy changed the source')
+                    if _get_kvs(a)[d] == kv0:
+                        _judge(ctx, 'knot_inplace', a, c, False, rci, fi)
+                    else:
+                        a = S.build(desc, ctx.seed)      # restore the source for the remaining pairs
     # ---- every degree: through the setter alone, and as a rebuilt valid shape
     degs0 = _get_deg(a)
     for d, p in enumerate(degs0):
